@@ -150,17 +150,31 @@ def run(chk: Check) -> None:
     chk.ob('SIB-key-function', fn, ok and n_paths >= 2, 'the file name depends on the pid, and on the tag whenever one is given', kind='name-depends-on-both')
     # ... injectively: (pid, tag) -> name must not map two keys to one file.  A name that splices str(pid) and the tag together with a literal
     # separator, neither of them encoded or checked for that separator, does: (1, '2') and ('1.2', None) are both '1.2.pickle'
+    # every way of building a string out of the two: f-string, str.format, %-formatting, concatenation -- a parameter that goes in as it is
+    # (no conversion other than str(), no format spec) next to a literal separator
     raw = []
-    for r in [x for x in ast.walk(fn.node) if isinstance(x, ast.JoinedStr)]:
-        parts = [v for v in r.values if isinstance(v, ast.FormattedValue)]
+    for r in ast.walk(fn.node):
+        parts = []
+        if isinstance(r, ast.JoinedStr):
+            parts = [v.value for v in r.values if isinstance(v, ast.FormattedValue) and v.format_spec is None and v.conversion in (-1, 115)]
+        elif isinstance(r, ast.Call) and isinstance(r.func, ast.Attribute) and r.func.attr == 'format' and isinstance(r.func.value, ast.Constant) and isinstance(r.func.value.value, str):
+            parts = list(r.args) + [k.value for k in r.keywords]
+        elif isinstance(r, ast.BinOp) and isinstance(r.op, ast.Mod) and isinstance(r.left, ast.Constant) and isinstance(r.left.value, str):
+            parts = list(r.right.elts) if isinstance(r.right, ast.Tuple) else [r.right]
+        elif isinstance(r, ast.BinOp) and isinstance(r.op, ast.Add):
+            parts = [r.left, r.right]
+        elif isinstance(r, ast.Call) and isinstance(r.func, ast.Attribute) and r.func.attr == 'join' and r.args and isinstance(r.args[0], (ast.Tuple, ast.List)):
+            parts = list(r.args[0].elts)
         for v in parts:
-            if isinstance(v.value, ast.Name) and v.value.id in fn.params[:2] and v.conversion == -1 and v.format_spec is None:
-                raw.append((r, v.value.id))
+            if isinstance(v, ast.Call) and isinstance(v.func, ast.Name) and v.func.id == 'str' and len(v.args) == 1:
+                v = v.args[0]
+            if isinstance(v, ast.Name) and v.id in fn.params[:2]:
+                raw.append((r, v.id))
     checked = any(isinstance(c, ast.Call) and last_name(c) in ('quote', 'quote_plus', 'hex', 'b64encode', 'urlsafe_b64encode', 'escape') for c in ast.walk(fn.node)) or \
         any(isinstance(x, ast.Raise) for x in ast.walk(fn.node))
     chk.ob('SIB-key-function', fn, not raw or checked, 'the file name is an injective function of (pid, tag)' + ('' if (not raw or checked) else
            f': {sorted({n_ for _, n_ in raw})} are spliced in as they are around a literal separator, so distinct keys collide -- (1, "2") and ("1.2", None) name the same file; saving one '
-           'overwrites the other and continue(pid=1, tag="2") resumes a different process'), node=raw[0][0] if raw else None, kind='name-injective')
+           'overwrites the other and continue(pid=1, tag="2") resumes a different process'), kind='name-injective', expr='name(pid, tag): both spliced in raw around a literal separator')
     c = [x for x in calls_in_func(fp, 'pickle_filename')]
     chk.ob('SIB-key-function', fp, len(c) == 1 and [norm(a) for a in c[0].args] == fp.params[1:3] and any('self._pickle_directory' in norm(a) for j in calls_in_func(fp, 'join') for a in j.args),
            'the path is <directory>/<name(pid, tag)>', kind='path-from-name')
@@ -171,7 +185,9 @@ def run(chk: Check) -> None:
         isinstance(seq.elt, ast.Name) and norm(seq.elt) == norm(seq.gens[0][0])
     chk.ob('SIB-key-function', gp, ok, 'the checkpoints of a process are those whose pid equals the given pid', kind='filter-by-pid')
     mg = prog.view(mem.vmethods['get_process_checkpoints'])
-    ok = any(isinstance(n, ast.Subscript) and norm(n) == f'self._checkpoints[{mg.params[1]}]' for n in ast.walk(mg.node))
+    ok = any(isinstance(n, ast.Subscript) and norm(n) == f'self._checkpoints[{mg.params[1]}]' for n in ast.walk(mg.node)) or any(
+        # ``self._checkpoints.get(pid, {})``: the same entry, an absent one read as empty
+        isinstance(n, ast.Call) and norm(n.func) == 'self._checkpoints.get' and n.args and norm(n.args[0]) == mg.params[1] for n in ast.walk(mg.node))
     chk.ob('SIB-key-function', mg, ok, 'in memory: the tags stored under that pid', kind='filter-by-pid')
     ml = prog.view(mem.vmethods['load_checkpoint'])
     ok = any(isinstance(n, ast.Subscript) and norm(n) == f'self._checkpoints[{ml.params[1]}][{ml.params[2]}]' for n in ast.walk(ml.node))
